@@ -56,9 +56,13 @@ def work_item(args):
     try:
         world = build_world()
         if kind == 'function':
-            c = world.contracts[name]
-            results = prove.verify_function(world, c)
-            name = out['name'] = name
+            shard = None
+            cname = name
+            if '@' in name:
+                cname, sh = name.split('@')
+                shard = tuple(int(x) for x in sh.split('/'))
+            c = world.contracts[cname]
+            results = prove.verify_function(world, c, shard=shard)
         else:
             mod = importlib.import_module('props.' + prop_id)
             lemma = dict(mod.LEMMAS)[name]
@@ -107,7 +111,7 @@ def work_item(args):
                         seen.add(ob.name)
                         try:
                             from lvc import replay
-                            rec['replay'] = replay.try_replay(world, kind, name, prop_id, ob, v, pr)
+                            rec['replay'] = replay.try_replay(world, kind, name.split('@')[0], prop_id, ob, v, pr)
                         except Exception as e:
                             rec['replay'] = {'status': 'error', 'detail': '%s: %s' % (type(e).__name__, e)}
                 elif v.status == 'undecided':
@@ -155,12 +159,20 @@ def run_property(prop_id, tier='quick', seed=0, jobs=None):
     t0 = time.time()
     mod = importlib.import_module('props.' + prop_id)
     kf = load_known()
-    known = set((f['obligation'], f['witness']) for f in kf['findings'] if f['property'] == prop_id)
+    known = set((f['obligation'], f['witness']) for f in kf['findings']
+                if f['property'] == prop_id or prop_id in f.get('also_seen_in', []))
     timeout_ms = 10000 if tier == 'quick' else 30000
-    items = [('function', prop_id, q, timeout_ms, known) for q in mod.FUNCTIONS]
+    shards = getattr(mod, 'SHARDS', {})
+    items = []
+    for q in mod.FUNCTIONS:
+        n = shards.get(q, 1)
+        if n == 1:
+            items.append(('function', prop_id, q, timeout_ms, known))
+        else:
+            items += [('function', prop_id, '%s@%d/%d' % (q, i, n), timeout_ms, known) for i in range(n)]
     items += [('lemma', prop_id, n, timeout_ms, known) for n, _ in getattr(mod, 'LEMMAS', [])]
     if tier == 'thorough':
-        items += [('crosscheck', prop_id, q, timeout_ms + int(seed), known) for q in mod.FUNCTIONS
+        items += [('crosscheck', prop_id, q, timeout_ms + int(seed), known) for q in mod.FUNCTIONS if '#' not in q or True
                   if q not in getattr(mod, 'NO_CROSSCHECK', ())]
     jobs = jobs or min(16, max(1, len(items)))
     if jobs > 1:
@@ -185,11 +197,11 @@ def run_property(prop_id, tier='quick', seed=0, jobs=None):
             cross.append({k: v for k, v in cc.items() if k != 'disagree'})
             cross[-1]['disagreements'] = len(cc['disagree'])
             if cc['disagree']:
-                crashes.append({'name': 'crosscheck ' + r['name'],
+                crashes.append({'name': 'crosscheck ' + r['name'], 'kind': 'crosscheck',
                                 'detail': 'engine/contract disagrees with the real code on sampled inputs: %s'
                                 % json.dumps(cc['disagree'][0], default=str)[:1500]})
             continue
-        paths += r['paths']
+        paths += r['paths'] if ('@' not in r['name'] or r['name'].split('@')[1].startswith('0/')) else 0
         assumptions |= set(r['assumptions'])
         inlined |= set(r['inlined'])
         modelled |= set(r['modelled'])
@@ -211,8 +223,17 @@ def run_property(prop_id, tier='quick', seed=0, jobs=None):
                 failed.append((r['name'], ob))
             else:
                 undecided.append((r['name'], ob))
-        per_fn[r['name']] = {'paths': r['paths'], 'obligations': len(r['obligations']), 'discharged': n_ok,
-                             'time_s': r['time_s'], 'kind': r['kind']}
+        base = r['name'].split('@')[0]
+        if base in per_fn:
+            pf = per_fn[base]
+            pf['paths'] = max(pf['paths'], r['paths'])
+            pf['obligations'] += len(r['obligations'])
+            pf['discharged'] += n_ok
+            pf['time_s'] = max(pf['time_s'], r['time_s'])
+            pf['shards'] = pf.get('shards', 1) + 1
+        else:
+            per_fn[base] = {'paths': r['paths'], 'obligations': len(r['obligations']), 'discharged': n_ok,
+                            'time_s': r['time_s'], 'kind': r['kind']}
         for ob in r['obligations'][:2]:
             samples.append({'obligation': ob['name'], 'status': ob['status'], 'solver': ob['solver'],
                             'time_s': ob['time_s'], 'path': ob.get('trace', '')})
@@ -239,7 +260,7 @@ def run_property(prop_id, tier='quick', seed=0, jobs=None):
     exit_code = 0
     os.makedirs(os.path.join(VERIF, 'replays', prop_id), exist_ok=True)
     for (obname, wit), n in sorted(known_seen.items()):
-        what = [f['what'] for f in kf['findings'] if f['property'] == prop_id and f['witness'] == wit
+        what = [f['what'] for f in kf['findings'] if (f['property'] == prop_id or prop_id in f.get('also_seen_in', [])) and f['witness'] == wit
                 and (f['obligation'] == obname or (f['obligation'].endswith('*')
                                                     and obname.startswith(f['obligation'][:-1])))]
         lines.append('KNOWN-FINDING: property=%s %s [%s] %s' % (prop_id, obname, wit, what[0] if what else ''))
